@@ -344,7 +344,8 @@ def st_cases():
     from hypothesis import strategies as st
 
     ident = st.sampled_from(["id", "name", "type", "value", "asym_id", "seq_id", "comp_id", "details", "label_asym_id", "auth_asym_id", "x", "flag"])
-    catname = st.sampled_from(["atom_site", "entity", "struct", "cell", "exptl", "citation", "pdbx_x", "entity_poly"])
+    # (dictionary categories with capitals in their names included: pdbx_SG_project, pdbx_database_PDB_obs_spr exist)
+    catname = st.sampled_from(["atom_site", "entity", "struct", "cell", "exptl", "citation", "pdbx_x", "entity_poly", "pdbx_SG_project", "pdbx_database_PDB_obs_spr", "Custom_Cat"])
     value = st.one_of(
         st.sampled_from(["A", "B", "AA", "1", "2", "-3.5", "ATOM", "?", ".", "?", "HOH", "A-2", "x1"]),
         st.sampled_from(["two words", "a b c", "O5'", "H5''", 'say "hi"', "it's", "N 1", "P 21 21 21", "multi\nline text", "inner line ends in blanks  \nsecond line", "tab at the end\t\nnext", "first\n   \nthird after a blank-only line", "semi;colon", "#hash", "_under", "data_x", "'q", '"q']),
